@@ -20,7 +20,8 @@ import random
 
 from graphql import (EnumValueNode, GraphQLEnumType, GraphQLInputObjectType, GraphQLList, GraphQLNonNull,
                      IntValueNode, ListValueNode, NullValueNode, ObjectValueNode, StringValueNode, Undefined,
-                     build_schema, coerce_input_value, get_named_type)
+                     build_client_schema, build_schema, coerce_input_value, get_named_type,
+                     introspection_from_schema)
 
 from .. import model
 from ..canon import inputs as ci
@@ -32,7 +33,8 @@ from ..sexp import Sym, json_sx, sx_json
 # streams of inputs_schema that are open finding classes; "kw_enum_default" (former F9c, fixed by a742038) stays a
 # generated stream as a regression case: a failure there is a VIOLATION.  The former F21 witnesses (null items under
 # a non-null list) are part of every "nulls"/"rand" value: a refusal there is a VIOLATION too.
-REGRESSION_STREAMS = ["kw_enum_default", "obj_enum_default", "list_obj_default"]   # F9c, F9a, F9b: fixed
+REGRESSION_STREAMS = ["kw_enum_default", "obj_enum_default", "list_obj_default",   # F9c, F9a, F9b: fixed
+                      "enum_positions", "falsy_defaults"]   # systematic positions / falsy values (main class)
 STREAM_CLASS = {
     "coerced_default": "F9d-default-relies-on-literal-coercion",
     "colliding_names": "F18-colliding-field-names",
@@ -175,7 +177,8 @@ class Case:
     def rep(self, **kw):
         g = self.g
         r = {"seed": g.sc.seed, "features": list(g.sc.features), "schema": g.sc.sdl, "queries": g.sc.queries,
-             "config": g.res.get("config")}
+             "config": g.res.get("config"),
+             "schema_source": "introspection (loopback server)" if getattr(g, "introspected", False) else "sdl"}
         r.update(kw)
         return r
 
@@ -203,7 +206,30 @@ def run_case(g, thorough: bool) -> Case:
     cfg = g.res.get("config", {}) or g.sc.config
     snake = cfg.get("convert_to_snake_case", True)
     scalars_cfg = cfg.get("scalars")
-    ssx, csx = ci.schema_sx(gs), ci.customs_sx(scalars_cfg)
+    # the schema object the generator works on: built from SDL, or (introspected variant) from the introspection
+    # result, where fields have no SDL node and the default literal is re-rendered from the coerced default
+    introspected = getattr(g, "introspected", False)
+    gsm = build_client_schema(introspection_from_schema(gs)) if introspected else gs
+    cs.d("schema_source", "introspection" if introspected else "sdl")
+    ssx, csx = ci.schema_sx(gsm), ci.customs_sx(scalars_cfg)
+
+    def emitted_literal(tn_, fn_):
+        """the default literal the generator sees for field tn_.fn_ (SDL node, or re-rendered when introspected)"""
+        f_ = gsm.type_map[tn_].fields[fn_]
+        return f_.ast_node.default_value if f_.ast_node is not None else ci.rebuilt_default(f_)
+
+    def classes_behind(tnames):
+        """finding classes of the defaults of the input types reachable (through fields) from the given types"""
+        out = set()
+        for n0 in tnames:
+            for n1 in schema_reach(gs, gs.type_map[n0]):
+                for fn_, f_ in gs.type_map[n1].fields.items():
+                    node_ = emitted_literal(n1, fn_)
+                    if node_ is not None:
+                        c_ = default_class(f_.type, node_)
+                        if c_:
+                            out.add(c_)
+        return out
     enums = {n for n, t in gs.type_map.items() if isinstance(t, GraphQLEnumType) and not n.startswith("__")}
     in_types = [t for n, t in gs.type_map.items() if isinstance(t, GraphQLInputObjectType)]
     feats = "+".join(g.sc.features) or "main"
@@ -410,10 +436,18 @@ def run_case(g, thorough: bool) -> Case:
                         what = (f"schema-valid value refused when built by {how}: input {tn}, "
                                 f"{rr['exc'][0]}: {rr['exc'][1][:200]}")
                         kw = dict(input_type=tn, value=v, by=how, observed=rr["exc"], coerced=lib_v)
+                        # an uncoerced default (F9d) surfacing from a default factory has this signature
+                        sig = rr["exc"][0] == "ValidationError" and (
+                            ("type=string_type" in rr["exc"][1] and "input_type=int" in rr["exc"][1])
+                            or "type=list_type" in rr["exc"][1])
+                        behind = classes_behind(touches) if sig else set()
                         if touches & collide:
                             cs.finding(F18, what, **kw)
                         elif cs.stream_class() and cs.stream_class() != F18:
                             cs.finding(cs.stream_class(), what, **kw)
+                        elif behind:
+                            # the failure comes out of a default factory of a class carrying a default of that class
+                            cs.finding(sorted(behind)[0], what, **kw)
                         else:
                             cs.violation(what, **kw)
                     if label == "drop_required" and rr["ok"]:
@@ -437,13 +471,16 @@ def run_case(g, thorough: bool) -> Case:
                 blame = None
                 for fn, f in t.fields.items():
                     if f.ast_node.default_value is not None and fn not in minv:
-                        blame = blame or default_class(f.type, f.ast_node.default_value)
+                        blame = blame or default_class(f.type, emitted_literal(tn, fn))
                 for other in iv.reachable_inputs(GraphQLNonNull(t), minv) - {tn}:
                     for fn, f in gs.type_map[other].fields.items():
                         if f.ast_node.default_value is not None:
-                            blame = blame or default_class(f.type, f.ast_node.default_value)
+                            blame = blame or default_class(f.type, emitted_literal(other, fn))
                 if not blame and cs.stream_class() and cs.stream_class() != F18:
                     blame = cs.stream_class()   # an object default instantiates the class that carries the bad default
+                if not blame:
+                    behind = classes_behind([tn])
+                    blame = sorted(behind)[0] if behind else None
                 if blame:
                     cs.finding(blame, what, **kw)
                 elif (iv.reachable_inputs(GraphQLNonNull(t), minv) & collide):
@@ -461,7 +498,10 @@ def run_case(g, thorough: bool) -> Case:
                 cs.c("evaluations")
                 cs.c("k3_defaults_read")
                 node = f.ast_node.default_value
-                cls = default_class(f.type, node)
+                cls = default_class(f.type, emitted_literal(tn, fn) or node)
+                if cls is None and isinstance(get_named_type(f.type), GraphQLInputObjectType):
+                    behind = classes_behind([get_named_type(f.type).name])
+                    cls = sorted(behind)[0] if behind else None
                 if tn in collide or (schema_reach(gs, get_named_type(f.type)) & collide):
                     cls = cls or F18   # the default instantiates a class with colliding field names
                 if cls is None and isinstance(get_named_type(f.type), GraphQLInputObjectType) \
@@ -522,6 +562,45 @@ def run_case(g, thorough: bool) -> Case:
     return cs
 
 
+def serve_schemas(sdls):
+    """loopback HTTP server: POST /<i> executes the received (introspection) query on schema i"""
+    import threading
+    from http.server import BaseHTTPRequestHandler, ThreadingHTTPServer
+
+    from graphql import graphql_sync
+
+    schemas = [build_schema(x) for x in sdls]
+
+    class H(BaseHTTPRequestHandler):
+        protocol_version = "HTTP/1.1"
+
+        def do_POST(self):
+            n = int(self.headers.get("content-length") or 0)
+            body = self.rfile.read(n)
+            try:
+                i = int(self.path.strip("/"))
+                res = graphql_sync(schemas[i], json.loads(body)["query"])
+                out = {"data": res.data}
+                if res.errors:
+                    out["errors"] = [{"message": e.message} for e in res.errors]
+            except Exception as e:  # noqa
+                out = {"errors": [{"message": f"bad request: {e}"}]}
+            raw = json.dumps(out).encode()
+            self.send_response(200)
+            self.send_header("Content-Type", "application/json")
+            self.send_header("Content-Length", str(len(raw)))
+            self.end_headers()
+            self.wfile.write(raw)
+
+        def log_message(self, *a):
+            pass
+
+    srv = ThreadingHTTPServer(("127.0.0.1", 0), H)
+    threading.Thread(target=srv.serve_forever, daemon=True).start()
+    port = srv.server_address[1]
+    return srv, [f"http://127.0.0.1:{port}/{i}" for i in range(len(sdls))]
+
+
 def run(ctx):
     run = ctx.run
     run.rule = ("seeded schemas of 2-4 input types (10 wrapper shapes, enums incl. keyword-named values, nested and "
@@ -549,8 +628,20 @@ def run(ctx):
                 scs.append(inputs_schema.make(base + 10000 * (si + 1) + i, (feat,)))
             except RuntimeError:
                 run.dist("scenarios", "generator-gave-up")
+    # introspected variants: the same scenarios generated from a loopback HTTP server answering the generator's
+    # introspection query with graphql-core (real httpx, nothing patched): all systematic streams + some main ones
+    n_intro_main = 8 if not ctx.thorough else 60
+    intro = [s for s in scs if s.features][:] + scs[:n_intro_main]
+    srv, urls = serve_schemas([s.sdl for s in intro])
     with workers.Scratch() as sc:
         gens = scen.generate(scs, sc)
+        reqs = [s.request(sc.new(), config={"remote_schema_url": u}) for s, u in zip(intro, urls)]
+        ires = workers.generate_many(reqs, jobs=12)
+        srv.shutdown()
+        for s, q, r in zip(intro, reqs, ires):
+            gi = scen.Generated(s, q, r)
+            gi.introspected = True
+            gens.append(gi)
 
         def one(g):
             try:
